@@ -308,7 +308,10 @@ class SchemaCase:
 
     def build_driver(self, cxx, std):
         src = os.path.join(self.dir, 'driver.cpp')
-        open(src, 'w').write(gen_driver(self.s['package'], self.layout))
+        if not os.path.exists(src):
+            tmp = src + '.%d.%s%s' % (os.getpid(), cxx, std)
+            open(tmp, 'w').write(gen_driver(self.s['package'], self.layout))
+            os.replace(tmp, src)
         exe = os.path.join(self.dir, 'driver-%s-%s' % (cxx.replace('+', 'p'), std))
         cmd = [cxx, '-std=' + std, '-O0', '-g0', '-w', '-fsanitize=undefined', '-fsanitize-undefined-trap-on-error',
                '-I' + os.path.join(self.dir, 'gen'),
